@@ -29,6 +29,8 @@ OPTSETS = [
     ("grpc+add-iam", ["transport=grpc", "add-iam-methods"], None),
     ("ads", ["transport=grpc", "python-gapic-templates=ads-templates", "old-naming"], None),
     ("rest+mixins", ["transport=rest"], ["operations", "locations"]),
+    ("grpc+rest+retry-config", ["transport=grpc+rest", "retry-config"], None),
+    ("grpc+renamed+metadata", ["transport=grpc+rest", "python-gapic-name=renamed_lib", "python-gapic-namespace=vp.other", "metadata"], None),
 ]
 
 
@@ -40,7 +42,7 @@ def floors(tier):
 
 
 def plan(seed, tier):
-    n = 15 if tier == "quick" else 140
+    n = 18 if tier == "quick" else 144
     cases = [{"id": f"suite-{seed}-{i}", "seed": seed * 100003 + i, "optset": i % len(OPTSETS), "kind": "conventional"} for i in range(n)]
     cases.append({"id": "suite-speech", "seed": seed, "optset": 2, "kind": "speech"})
     return cases
@@ -54,7 +56,22 @@ def build_api(case):
     finally:
         apigen.NO_REP_BOOL[0] = False
     label, opts, mixins = OPTSETS[case["optset"]]
-    api.options = list(opts)
+    opts = list(opts)
+    if "retry-config" in opts:
+        opts.remove("retry-config")
+        import json as _json
+        names = []
+        for fb in api.files:
+            if fb.pb.name in api.targets:
+                for s_ in fb.pb.service:
+                    for m_ in s_.method:
+                        names.append({"service": f"{fb.pb.package}.{s_.name}", "method": m_.name})
+        rng.shuffle(names)
+        cfg = [{"name": names[: len(names) // 2], "timeout": "33s",
+                "retryPolicy": {"initialBackoff": "0.2s", "maxBackoff": "12s", "backoffMultiplier": 1.5, "retryableStatusCodes": ["UNAVAILABLE", "DEADLINE_EXCEEDED"]}},
+               {"name": names[len(names) // 2: len(names) // 2 + 2], "timeout": "7.5s"}]
+        api.aux["retry-config"] = ("retry.json", _json.dumps({"methodConfig": cfg}))
+    api.options = opts
     if mixins is not None:
         api.aux["service-yaml"] = ("svc.yaml", apigen.service_yaml(api, mixins=mixins))
     return api, label
